@@ -1,5 +1,7 @@
 import PP.TranslatedScan
 import PP.Model.Re
+import PP.Lemmas.PrintLemmas
+import PP.Lemmas.RootsLemmas
 /-
 Tie A, translated part 2: byte-level helpers of the scanner (`atou`,
 `trimLeftSpace`, `isFramesElidedLine`) and of path rebasing (`hasPrefix`,
@@ -21,6 +23,7 @@ def modelEnv (fs : FS) : Env where
   hasPrefix p s := some (mapHasPrefix p s)
   hasSrcPrefix p s := some (PP.hasSrcPrefix p s)
   isRootedIn root parts := some (PP.isRootedIn fs root parts)
+  Call_updateLocations c goroot lg gomods gopaths := some (c.updateLocations goroot lg gomods gopaths)
 
 variable (fs : FS)
 
@@ -266,6 +269,206 @@ theorem tie_isRootedIn (root : Bytes) (parts : List Bytes) :
 #print axioms PP.TrS.tie_hasSrcPrefix
 #print axioms PP.TrS.tie_isRootedIn
 
+/-! ### (*Call).updateLocations (stack.go) -/
+
+theorem hasPrefix_len {s p : Bytes} (h : Bytes.hasPrefix s p = true) : p.length ≤ s.length := by
+  obtain ⟨t, e⟩ := PP.hasPrefix_iff.mp h
+  rw [e]; simp
+
+/-- the block every successful branch runs, once the relative path is known -/
+theorem branch_tail (c : Call) (rel loc_path : Bytes) (l : Loc) :
+    ((match Bytes.lastIndexByte ({ c with relSrcPath := rel, localSrcPath := loc_path } : Call).relSrcPath 47 with
+      | some i =>
+        (goSlice ({ c with relSrcPath := rel, localSrcPath := loc_path } : Call).relSrcPath 0 i).bind fun t =>
+        some ({ ({ c with relSrcPath := rel, localSrcPath := loc_path } : Call) with importPath := t } : Call)
+      | none => some ({ c with relSrcPath := rel, localSrcPath := loc_path } : Call)).bind fun c1 =>
+      (if (c1.location == Loc.unknown) then some ({ c1 with location := l } : Call) else some c1)) =
+    some ({ c with relSrcPath := rel, localSrcPath := loc_path, importPath := importOfRel rel c.importPath,
+                   location := setLoc c l } : Call) := by
+  simp only [importOfRel, setLoc]
+  cases hl : Bytes.lastIndexByte rel 47 with
+  | none => by_cases hu : c.location = Loc.unknown <;> simp [hl, hu]
+  | some i =>
+    have hi := (PP.lastIndexByte_eq_some hl).2.2
+    by_cases hu : c.location = Loc.unknown <;>
+      simp [hl, hu, goSlice_to rel i (Nat.le_of_lt hi)]
+
+theorem gomod_tail (c : Call) (rel pkg : Bytes) :
+    ((match Bytes.lastIndexByte ({ c with relSrcPath := rel, localSrcPath := c.remoteSrcPath } : Call).relSrcPath 47 with
+      | some i =>
+        (goSlice ({ c with relSrcPath := rel, localSrcPath := c.remoteSrcPath } : Call).relSrcPath 0 i).bind fun t =>
+        some ({ ({ c with relSrcPath := rel, localSrcPath := c.remoteSrcPath } : Call) with
+                importPath := ((pkg ++ ([47] : List UInt8)) ++ t) } : Call)
+      | none => some ({ ({ c with relSrcPath := rel, localSrcPath := c.remoteSrcPath } : Call) with importPath := pkg } : Call)).bind
+      fun c1 => (if (c1.location == Loc.unknown) then some ({ c1 with location := Loc.goMod } : Call) else some c1)) =
+    some ({ c with relSrcPath := rel, localSrcPath := c.remoteSrcPath, importPath := gomodImport pkg rel,
+                   location := setLoc c .goMod } : Call) := by
+  simp only [gomodImport, setLoc]
+  cases hl : Bytes.lastIndexByte rel 47 with
+  | none => by_cases hu : c.location = Loc.unknown <;> simp [hl, hu]
+  | some i =>
+    have hi := (PP.lastIndexByte_eq_some hl).2.2
+    by_cases hu : c.location = Loc.unknown <;>
+      simp [hl, hu, goSlice_to rel i (Nat.le_of_lt hi)]
+
+theorem loop_upd3 (c : Call) (goroot lg : Bytes) (gomods gopaths : AMap) :
+    ∀ (ks : List Bytes) (k : Nat),
+    forRange (Call_updateLocations_loop3 (modelEnv fs) c goroot lg gomods gopaths) ks k c =
+    match c.gopathLoop gopaths ks with
+    | some c' => some (Step.ret (c', true))
+    | none => some (Step.cont c)
+  | [], _ => by simp [Call.gopathLoop]
+  | x :: ks, k => by
+    have s5 : ([47, 115, 114, 99, 47] : List UInt8) = srcSep := rfl
+    have s9 : ([47, 112, 107, 103, 47, 109, 111, 100, 47] : List UInt8) = pkgmodSep := rfl
+    have e3 : ([115, 114, 99] : List UInt8) = b!"src" := rfl
+    have e7 : ([112, 107, 103, 47, 109, 111, 100] : List UInt8) = b!"pkg/mod" := rfl
+    rw [forRange_cons]
+    simp only [Call_updateLocations_loop3, Call.gopathLoop, Call.tryGopath, s5, s9, e3, e7, len]
+    by_cases h1 : Bytes.hasPrefix c.remoteSrcPath (x ++ srcSep) = true
+    · simp only [h1, if_true, goSlice_from _ _ (hasPrefix_len h1), Option.bind_some]
+      generalize hrel : List.drop (x ++ srcSep).length c.remoteSrcPath = rel
+      cases hl : Bytes.lastIndexByte rel 47 with
+      | none => by_cases hu : c.location = Loc.unknown <;> simp [hl, hu, importOfRel, gomodImport, setLoc]
+      | some i =>
+        have hi := (PP.lastIndexByte_eq_some hl).2.2
+        by_cases hu : c.location = Loc.unknown <;>
+          simp [hl, hu, importOfRel, gomodImport, setLoc, goSlice_to rel i (Nat.le_of_lt hi)]
+    · simp only [h1, Bool.false_eq_true, if_false]
+      by_cases h2 : Bytes.hasPrefix c.remoteSrcPath (x ++ pkgmodSep) = true
+      · simp only [h2, if_true, goSlice_from _ _ (hasPrefix_len h2), Option.bind_some]
+        generalize hrel : List.drop (x ++ pkgmodSep).length c.remoteSrcPath = rel
+        cases hl : Bytes.lastIndexByte rel 47 with
+        | none => by_cases hu : c.location = Loc.unknown <;> simp [hl, hu, importOfRel, gomodImport, setLoc]
+        | some i =>
+          have hi := (PP.lastIndexByte_eq_some hl).2.2
+          by_cases hu : c.location = Loc.unknown <;>
+            simp [hl, hu, importOfRel, gomodImport, setLoc, goSlice_to rel i (Nat.le_of_lt hi)]
+      · simp only [h2, Bool.false_eq_true, if_false]
+        exact loop_upd3 c goroot lg gomods gopaths  ks (k + 1)
+
+theorem loop_upd1 (c : Call) (goroot lg : Bytes) (gomods gopaths : AMap) (pf : Bytes) :
+    ∀ (ks : List Bytes) (k : Nat),
+    forRange (Call_updateLocations_loop1 (modelEnv fs) c goroot lg gomods gopaths pf) ks k c =
+    match c.gopathLoop gopaths ks with
+    | some c' => some (Step.ret (c', true))
+    | none => some (Step.cont c)
+  | [], _ => by simp [Call.gopathLoop]
+  | x :: ks, k => by
+    have s5 : ([47, 115, 114, 99, 47] : List UInt8) = srcSep := rfl
+    have s9 : ([47, 112, 107, 103, 47, 109, 111, 100, 47] : List UInt8) = pkgmodSep := rfl
+    have e3 : ([115, 114, 99] : List UInt8) = b!"src" := rfl
+    have e7 : ([112, 107, 103, 47, 109, 111, 100] : List UInt8) = b!"pkg/mod" := rfl
+    rw [forRange_cons]
+    simp only [Call_updateLocations_loop1, Call.gopathLoop, Call.tryGopath, s5, s9, e3, e7, len]
+    by_cases h1 : Bytes.hasPrefix c.remoteSrcPath (x ++ srcSep) = true
+    · simp only [h1, if_true, goSlice_from _ _ (hasPrefix_len h1), Option.bind_some]
+      generalize hrel : List.drop (x ++ srcSep).length c.remoteSrcPath = rel
+      cases hl : Bytes.lastIndexByte rel 47 with
+      | none => by_cases hu : c.location = Loc.unknown <;> simp [hl, hu, importOfRel, gomodImport, setLoc]
+      | some i =>
+        have hi := (PP.lastIndexByte_eq_some hl).2.2
+        by_cases hu : c.location = Loc.unknown <;>
+          simp [hl, hu, importOfRel, gomodImport, setLoc, goSlice_to rel i (Nat.le_of_lt hi)]
+    · simp only [h1, Bool.false_eq_true, if_false]
+      by_cases h2 : Bytes.hasPrefix c.remoteSrcPath (x ++ pkgmodSep) = true
+      · simp only [h2, if_true, goSlice_from _ _ (hasPrefix_len h2), Option.bind_some]
+        generalize hrel : List.drop (x ++ pkgmodSep).length c.remoteSrcPath = rel
+        cases hl : Bytes.lastIndexByte rel 47 with
+        | none => by_cases hu : c.location = Loc.unknown <;> simp [hl, hu, importOfRel, gomodImport, setLoc]
+        | some i =>
+          have hi := (PP.lastIndexByte_eq_some hl).2.2
+          by_cases hu : c.location = Loc.unknown <;>
+            simp [hl, hu, importOfRel, gomodImport, setLoc, goSlice_to rel i (Nat.le_of_lt hi)]
+      · simp only [h2, Bool.false_eq_true, if_false]
+        exact loop_upd1 c goroot lg gomods gopaths pf ks (k + 1)
+
+theorem loop_upd4 (c : Call) (goroot lg : Bytes) (gomods gopaths : AMap) :
+    ∀ (ks : List Bytes) (k : Nat),
+    forRange (Call_updateLocations_loop4 (modelEnv fs) c goroot lg gomods gopaths) ks k c =
+    match c.gomodLoop gomods ks with
+    | some c' => some (Step.ret (c', true))
+    | none => some (Step.cont c)
+  | [], _ => by simp [Call.gomodLoop]
+  | x :: ks, k => by
+    have e1 : ([47] : List UInt8) = b!"/" := rfl
+    rw [forRange_cons]
+    simp only [Call_updateLocations_loop4, Call.gomodLoop, Call.tryGomod, e1, len]
+    by_cases h1 : Bytes.hasPrefix c.remoteSrcPath (x ++ b!"/") = true
+    · have hl : x.length + 1 ≤ c.remoteSrcPath.length := by have := hasPrefix_len h1; simpa using this
+      simp only [h1, if_true, goSlice_from _ _ hl, Option.bind_some]
+      generalize hrel : List.drop (x.length + 1) c.remoteSrcPath = rel
+      cases hl : Bytes.lastIndexByte rel 47 with
+      | none => by_cases hu : c.location = Loc.unknown <;> simp [hl, hu, importOfRel, gomodImport, setLoc]
+      | some i =>
+        have hi := (PP.lastIndexByte_eq_some hl).2.2
+        by_cases hu : c.location = Loc.unknown <;>
+          simp [hl, hu, importOfRel, gomodImport, setLoc, goSlice_to rel i (Nat.le_of_lt hi)]
+    · simp only [h1, Bool.false_eq_true, if_false]
+      exact loop_upd4 c goroot lg gomods gopaths  ks (k + 1)
+
+theorem loop_upd2 (c : Call) (goroot lg : Bytes) (gomods gopaths : AMap) (pf : Bytes) :
+    ∀ (ks : List Bytes) (k : Nat),
+    forRange (Call_updateLocations_loop2 (modelEnv fs) c goroot lg gomods gopaths pf) ks k c =
+    match c.gomodLoop gomods ks with
+    | some c' => some (Step.ret (c', true))
+    | none => some (Step.cont c)
+  | [], _ => by simp [Call.gomodLoop]
+  | x :: ks, k => by
+    have e1 : ([47] : List UInt8) = b!"/" := rfl
+    rw [forRange_cons]
+    simp only [Call_updateLocations_loop2, Call.gomodLoop, Call.tryGomod, e1, len]
+    by_cases h1 : Bytes.hasPrefix c.remoteSrcPath (x ++ b!"/") = true
+    · have hl : x.length + 1 ≤ c.remoteSrcPath.length := by have := hasPrefix_len h1; simpa using this
+      simp only [h1, if_true, goSlice_from _ _ hl, Option.bind_some]
+      generalize hrel : List.drop (x.length + 1) c.remoteSrcPath = rel
+      cases hl : Bytes.lastIndexByte rel 47 with
+      | none => by_cases hu : c.location = Loc.unknown <;> simp [hl, hu, importOfRel, gomodImport, setLoc]
+      | some i =>
+        have hi := (PP.lastIndexByte_eq_some hl).2.2
+        by_cases hu : c.location = Loc.unknown <;>
+          simp [hl, hu, importOfRel, gomodImport, setLoc, goSlice_to rel i (Nat.le_of_lt hi)]
+    · simp only [h1, Bool.false_eq_true, if_false]
+      exact loop_upd2 c goroot lg gomods gopaths pf ks (k + 1)
+
+theorem tie_Call_updateLocations (c : Call) (goroot lg : Bytes) (gomods gopaths : AMap) :
+    Call_updateLocations (modelEnv fs) c goroot lg gomods gopaths =
+      (modelEnv fs).Call_updateLocations c goroot lg gomods gopaths := by
+  have s5 : ([47, 115, 114, 99, 47] : List UInt8) = srcSep := rfl
+  have e3 : ([115, 114, 99] : List UInt8) = b!"src" := rfl
+  have hm : (modelEnv fs).Call_updateLocations c goroot lg gomods gopaths =
+      some (c.updateLocations goroot lg gomods gopaths) := rfl
+  rw [hm]
+  simp only [Call_updateLocations, Call.updateLocations, Call.updateLocations?, Call.tryGoroot, s5, e3, len]
+  by_cases h0 : (c.remoteSrcPath == ([] : List UInt8)) = true
+  · simp [h0]
+  · simp only [h0, Bool.false_eq_true, if_false]
+    by_cases hg : (goroot != ([] : List UInt8)) = true
+    · simp only [hg, if_true, Bool.true_and]
+      by_cases h1 : Bytes.hasPrefix c.remoteSrcPath (goroot ++ srcSep) = true
+      · simp only [h1, if_true, goSlice_from _ _ (hasPrefix_len h1), Option.bind_some]
+        generalize hrel : List.drop (goroot ++ srcSep).length c.remoteSrcPath = rel
+        cases hl : Bytes.lastIndexByte rel 47 with
+        | none => by_cases hu : c.location = Loc.unknown <;> simp [hl, hu, importOfRel, gomodImport, setLoc]
+        | some i =>
+          have hi := (PP.lastIndexByte_eq_some hl).2.2
+          by_cases hu : c.location = Loc.unknown <;>
+            simp [hl, hu, importOfRel, gomodImport, setLoc, goSlice_to rel i (Nat.le_of_lt hi)]
+      · simp only [h1, Bool.false_eq_true, if_false, loop_upd1, loop_upd2]
+        cases hp : c.gopathLoop gopaths (sortedByLen gopaths) with
+        | some c' => simp
+        | none =>
+          simp only [after_cont]
+          cases hq : c.gomodLoop gomods (sortedByLen gomods) <;> simp
+    · simp only [hg, Bool.false_eq_true, if_false, Bool.false_and, loop_upd3, loop_upd4]
+      cases hp : c.gopathLoop gopaths (sortedByLen gopaths) with
+      | some c' => simp
+      | none =>
+        simp only [after_cont]
+        cases hq : c.gomodLoop gomods (sortedByLen gomods) <;> simp
+
 end PP.TrS
+
+#print axioms PP.TrS.tie_Call_updateLocations
 
 
